@@ -39,7 +39,7 @@ TOL = 1e-10
 
 
 def budget(tier):
-    return 700 if tier == "quick" else 15000
+    return 4000 if tier == "quick" else 40000
 
 
 def _generating():
